@@ -348,3 +348,6 @@ func ExtraStat(t *testing.T, property string, kv map[string]any) {
 	b, _ := json.Marshal(map[string]any{"property": property, "test": t.Name(), "extra_only": true, "extra": kv})
 	_ = os.WriteFile(filepath.Join(dir, fmt.Sprintf("%s-%s-%d.extra.json", property, t.Name(), os.Getpid())), b, 0o644)
 }
+
+// NewObsForDebug is used by throw-away debugging tests only.
+func NewObsForDebug() *Obs { return newObs() }
